@@ -233,11 +233,13 @@ contract('cmdline.MatcherMixin.finish_optionbag',
 CONSUMED = Clause('len(self.optionbag.sectitems) == 0 and len(keys(self.optionbag.keypairs)) == 0', carries='C14',
                   label='every-override-was-consumed-before-the-section-is-completed')
 contract('cmdline.ExtendedSectionMatcher.finish', returns='Ref[matcher.SectionValue]', fresh_result=True,
-         modifies=['self._values', 'self.handlers.items', 'self.optionbag.keypairs'],
+         requires=[contracts.matcher.NOT_FINISHED],
+         modifies=['self._values', 'self.handlers.items', 'self.optionbag.keypairs', 'self.finished'],
          ensures=[CONSUMED] + list(contracts.matcher.VALUE_OF),
          raises=[Raise('ZConfig.ConfigurationError+', carries='C14,C07', label='override-or-section-rejected')])
 contract('cmdline.ExtendedSchemaMatcher.finish', returns='Opaque[PyVal]',
-         modifies=['self._values', 'self.handlers.items', 'self.optionbag.keypairs'],
+         requires=[contracts.matcher.NOT_FINISHED],
+         modifies=['self._values', 'self.handlers.items', 'self.optionbag.keypairs', 'self.finished'],
          ensures=[CONSUMED],
          raises=[Raise('ZConfig.ConfigurationError+', carries='C14,C07', label='override-or-text-rejected'),
                  Raise('ValueError', label='the schema datatype itself raised (passes through unchanged, C07)')])
